@@ -73,10 +73,36 @@ def upper_bounds(db, guards, te=None, root=None):
 THOROUGH_MAIN_CONFIGS = ['b248s6', 'nostd']
 
 
+def premises(db, rep, cfg):
+    """The bound on every numeric-driven site is 'validated by StarkConfig::validate': the upper-bound conjuncts of the
+    configuration statement (C11's frozen table: counts and exponents that drive loops, recursions and allocations) are
+    premises of C17 and are re-established here with C11's matcher -- a bound that no longer covers every element
+    (a zip over a shorter slice, a skipped layer) leaves a loop whose trip count is a free proof field."""
+    from props import c11
+    guards = dataflow.effective_guards(db, common.CONFIG_VALIDATE)
+    cfg_guards = [g for g in guards if g.reject in ('err', 'mixed', 'panic')]
+    matched, _ = GT.match_table(db, cfg_guards, c11.table(), c11.extras())
+    n = 0
+    for e in c11.table():
+        if e.rel not in ('LE', 'LT') or not any(x.startswith('val:') for x in e.rhs) or any(x.startswith('val:') for x in e.lhs):
+            continue
+        n += 1
+        gs = matched[e.name]
+        rep.ob('C17.premise', e.name, bool(gs),
+               f'upper bound {GT.describe(e.rel, e.lhs, e.rhs)} ({e.why}) ' +
+               ('is required on every accepting path of StarkConfig::validate' if gs else
+                'is no longer required for every element on every accepting path of StarkConfig::validate: the work it bounds '
+                'is driven by an unvalidated proof field'),
+               db.fns[gs[0].fn].loc(gs[0].line) if gs else db.fns[common.CONFIG_VALIDATE].loc(), cfg)
+    # counted on the pinned tree: pow-bits, blow-up, queries, fri layers, fri step, last-layer bound, fri input size
+    rep.floor('C17.premise', 'upper-bound conjuncts of the configuration statement', n, 5)
+
+
 def run(ctx, rep):
     db = ctx.main
     cfg = db.config
     te = dataflow.typeenv(db)
+    premises(db, rep, cfg)
     root = db.fn(VERIFY, 'C17')
     dom = root.dominators()
     lay = db.layouts()
